@@ -34,7 +34,8 @@ EXPLANATION = (
     "payload); the frame with the flag starts with one blank, both frames end with one blank and format the "
     "number with plain Display; (R8) where the lowering evaluates a user expression between the device selection "
     "and PrintEnd, the VM keeps the statement's print state per activation (a FUNCTION called by an item may "
-    "itself PRINT).")
+    "itself PRINT); (R9 = C01.R5) every PrintState field a per-item operation modifies is written again by reset() or "
+    "print_end(): the format cursor of PRINT USING starts at the beginning of the format in every statement.")
 NOT_DECIDED = [
     "the digits a number is rendered as (Display of f32 / f64 versus QBasic's rendering)",
     "PRINT USING: field scanning, cyclic reuse of the format, rounding (value-level string arithmetic)",
@@ -172,6 +173,7 @@ class _Walk:
         self.results = []      # (return value, fields at exit)
         self.init = dict(init_fields)
         self.steps = 0
+        self.depth = 0
 
     def key(self, place):
         f = _self_field(place)
@@ -289,6 +291,30 @@ class _Walk:
                         env[k] = ("adt", "Err", [None])
                     else:
                         env[k] = None
+            # a method of the same object that is handed self: walked itself, with the fields as they are
+            g0 = _resolve(self.prog, t) if self.prog is not None else None
+            if g0 is not None and g0.impl is not None and self.body.fn.impl is not None and self.depth < 3 \
+                    and g0.impl.get("self_adt") == self.body.fn.impl.get("self_adt") and g0.kind != "closure" \
+                    and t["args"] and mir.op_place(t["args"][0]) is not None \
+                    and self._aliases_self(mir.op_place(t["args"][0])[0]) and t.get("t") is not None:
+                sub = _Walk(g0.body, {kk: v for kk, v in env.items() if kk[0] == "F"}, self.prog)
+                sub.depth = self.depth + 1
+                outs = sub.run()
+                seen_out = set()
+                for ret, fields in outs:
+                    sig = (repr(ret), tuple(sorted(fields.items(), key=lambda x: x[0])))
+                    if sig in seen_out:
+                        continue
+                    seen_out.add(sig)
+                    env2 = dict(env)
+                    for fk in [kk for kk in env2 if kk[0] == "F"]:
+                        env2[fk] = fields.get(fk[1])
+                    for fn_, fv in fields.items():
+                        env2[("F", fn_)] = fv
+                    if d and self.key(d) is not None:
+                        env2[self.key(d)] = ret
+                    self._go(t["t"], env2, visits)
+                return
             # a callee that gets &mut self may write any field
             for a in t["args"]:
                 p = mir.op_place(a)
@@ -421,19 +447,44 @@ def r2_lowering(ctx, rule="C16.R2"):
             got = sorted({n for n, _r, _s in _instr_aggs(f.body, region) if n.startswith("Print")})
             ctx.decide(got == [ins], rule, key, f.loc, "%s -> %s" % (v, ins),
                        "PrintArg::%s is lowered to %s instead of %s" % (v, got or "no PRINT instruction", ins))
-    # (b) device selection
-    sel = []
-    for f in gens:
-        for b, blk in enumerate(f.body.blocks):
-            for s in blk["s"]:
-                if s["k"] == "assign" and s["r"]["k"] == "agg" and (s["r"].get("adt") or "").endswith("::PrinterType"):
-                    sel.append((f, b, s["r"]["variant"]))
-    fns = sorted({f.id for f, _b, _v in sel})
-    if len(fns) != 1:
-        raise CheckError("%s: PrinterType is constructed in %d generator functions (expected one)" % (rule, len(fns)))
-    f = prog.fns[fns[0]]
+    # (b) device selection: in the function that builds the PrintSetPrinterType instruction
+    def ptypes(g, blocks=None):
+        return [(b_, s_["r"]["variant"]) for b_, blk_ in enumerate(g.body.blocks) if blocks is None or b_ in blocks
+                for s_ in blk_["s"] if s_["k"] == "assign" and s_["r"]["k"] == "agg"
+                and (s_["r"].get("adt") or "").endswith("::PrinterType")]
+    setters = sorted({g.id for g in gens for blk in g.body.blocks for s_ in blk["s"] if s_["k"] == "assign"
+                      and s_["r"]["k"] == "agg" and (s_["r"].get("adt") or "").endswith("::Instruction")
+                      and s_["r"].get("variant") == "PrintSetPrinterType"})
+    if len(setters) != 1:
+        raise CheckError("%s: PrintSetPrinterType is built in %d generator functions (expected one)" % (rule, len(setters)))
+    f = prog.fns[setters[0]]
     body = f.body
     pv = mir.Prov(body)
+    gen_ids = {g.id for g in gens}
+
+    def helpers_in(region):
+        out = []
+        for b_, t_ in mir.region_calls(body, region):
+            h = _resolve(prog, t_)
+            if h is not None and h.id in gen_ids and h.id != f.id and ptypes(h):
+                out.append((b_, t_, h))
+        return out
+
+    def variants_in(region):
+        vs = {v for _b, v in ptypes(f, region)}
+        for _b, _t, h in helpers_in(region):
+            vs |= {v for _b2, v in ptypes(h)}
+        return sorted(vs)
+
+    def flag_edges(g, sw_b, t):
+        zero = [tg for val, tg in t["ts"] if val == 0]
+        if not zero:
+            return None
+        rz = g.body.reachable(zero[0], avoid={t["else"]})
+        rn = g.body.reachable(t["else"], avoid={zero[0]})
+        vz = {v for bb, v in ptypes(g) if bb in rz and bb not in rn}
+        vn = {v for bb, v in ptypes(g) if bb in rn and bb not in rz}
+        return vz, vn
     opt = [sw for sw in mir.enum_switches(prog, body) if sw.adt == "core::option::Option"]
     ok_file = False
     why = "no match on the optional file number"
@@ -446,8 +497,8 @@ def r2_lowering(ctx, rule="C16.R2"):
             continue
         some_r = mir.arm_region(body, sw.bb, some_t)
         none_r = mir.arm_region(body, sw.bb, none_t)
-        some_types = sorted({v for g, b, v in sel if b in some_r})
-        none_types = sorted({v for g, b, v in sel if b in none_r})
+        some_types = variants_in(some_r)
+        none_types = variants_in(none_r)
         handle = [r for n, r, _s in _instr_aggs(body, some_r) if n == "PrintSetFileHandle"]
         h_ok = False
         for r in handle:
@@ -462,20 +513,31 @@ def r2_lowering(ctx, rule="C16.R2"):
             why = "without a file number the printer types are %s (LPRINT and PRINT need one each)" % none_types
         else:
             ok_file = True
-            # which edge of the lpt1 test is which
+            # which edge of the lpt1 test is which: the test is here, or in a helper that is handed the flag
+            edges = None
+            where = f
             for b in sorted(none_r):
                 t = body.blocks[b]["t"]
                 if t["k"] == "switch" and "lpt1" in mir.show_origin(pv.of_operand(t["o"])):
-                    zero = [tg for val, tg in t["ts"] if val == 0]
-                    if zero:
-                        rz = body.reachable(zero[0], avoid={t["else"]})
-                        rn = body.reachable(t["else"], avoid={zero[0]})
-                        vz = {v for g, bb, v in sel if bb in rz and bb not in rn}
-                        vn = {v for g, bb, v in sel if bb in rn and bb not in rz}
-                        ctx.decide(vz == {"Print"} and vn == {"LPrint"}, rule, rule + ":device:lpt1-flag", f.loc,
-                                   "lpt1 -> LPrint, otherwise Print",
-                                   "the lpt1 flag selects %s and its absence %s: PRINT and LPRINT are exchanged"
-                                   % (sorted(vn), sorted(vz)))
+                    edges = flag_edges(f, b, t)
+            if edges is None:
+                for _b, t_, h in helpers_in(none_r):
+                    if not any("lpt1" in mir.show_origin(pv.of_operand(a_)) for a_ in t_["args"]):
+                        continue
+                    hpv = mir.Prov(h.body)
+                    for b2, blk2 in enumerate(h.body.blocks):
+                        t2 = blk2["t"]
+                        if t2["k"] == "switch" and not blk2.get("c") and mir.show_origin(hpv.of_operand(t2["o"])).startswith("arg"):
+                            edges = flag_edges(h, b2, t2)
+                            where = h
+            if edges is None:
+                ctx.unknown(rule, rule + ":device:lpt1-flag", f.loc, "the test of the lpt1 flag was not found")
+            else:
+                vz, vn = edges
+                ctx.decide(vz == {"Print"} and vn == {"LPrint"}, rule, rule + ":device:lpt1-flag", where.loc,
+                           "lpt1 -> LPrint, otherwise Print",
+                           "the lpt1 flag selects %s and its absence %s: PRINT and LPRINT are exchanged"
+                           % (sorted(vn), sorted(vz)))
     ctx.decide(ok_file, rule, rule + ":device:file-number", f.loc,
                "PRINT #n -> File + handle n; otherwise LPrint / Print", "device selection of PRINT: " + why)
     # (c) PrintEnd closes every statement
@@ -506,7 +568,7 @@ def r2_lowering(ctx, rule="C16.R2"):
                "%s: %s" % (g.path.split("::")[-1], "something is emitted after PrintEnd (%s)" % after if after else
                            "a path through the lowering of PRINT emits no PrintEnd: the statement's line never ends and its "
                            "state leaks into the next PRINT"))
-    ctx.require(rule, 6)
+    ctx.require(rule, 6, max_unknown=1)
 
 
 # ------------------------------------------------------------------ R3
@@ -614,14 +676,20 @@ def r4_flag_machine(ctx, state_fns, rule="C16.R4"):
             ctx.violation(rule, key, "-", "the VM arm of %s calls no PrintState method: the statement's line-end flag is "
                           "not updated by %s" % (v, what))
             continue
-        bad = []
+        bad, unk = [], []
         for init in (0, 1):
             res = run(f, init)
             if not res:
-                bad.append("no path reaches a return")
+                unk.append("no path reaches a return")
             for _ret, fields in res:
-                if fields.get(flag) != want:
-                    bad.append("from flag=%s a path leaves it %s" % (bool(init), {0: "false", 1: "true", None: "unknown"}[fields.get(flag)]))
+                got = fields.get(flag)
+                if got is None:
+                    unk.append("from flag=%s the value on a path is not decided" % bool(init))
+                elif got != want:
+                    bad.append("from flag=%s a path leaves it %s" % (bool(init), {0: "false", 1: "true"}[got]))
+        if unk and not bad:
+            ctx.unknown(rule, key, f.loc, "; ".join(sorted(set(unk))[:2]))
+            continue
         ctx.decide(not bad, rule, key, f.loc, "%s leaves %s = %s on every path" % (f.name, flag, bool(want)),
                    "after %s PrintState.%s must be %s (%s): %s" % (
                        what, flag, bool(want),
@@ -632,26 +700,36 @@ def r4_flag_machine(ctx, state_fns, rule="C16.R4"):
         ctx.violation(rule, rule + ":PrintEnd", "-", "the VM arm of PrintEnd calls no PrintState method")
     else:
         for init in (0, 1):
-            bad = []
+            bad, unk = [], []
             oks = 0
             for ret, fields in run(f, init):
                 if isinstance(ret, tuple) and ret[0] == "adt" and ret[1] == "Ok":
                     oks += 1
                     tup = ret[2][0] if ret[2] else None
                     nl = tup[1][1] if isinstance(tup, tuple) and tup[0] == "tup" and len(tup[1]) > 1 else None
-                    if nl != 1 - init:
-                        bad.append("returns new-line = %s" % {0: "false", 1: "true", None: "unknown"}[nl])
-                    if fields.get(flag) != 0:
-                        bad.append("leaves the flag %s" % {1: "set", None: "unknown"}.get(fields.get(flag)))
+                    if nl is None:
+                        unk.append("the returned new-line flag is not decided on a path")
+                    elif nl != 1 - init:
+                        bad.append("returns new-line = %s" % {0: "false", 1: "true"}[nl])
+                    if fields.get(flag) is None:
+                        unk.append("the flag after the call is not decided on a path")
+                    elif fields.get(flag) != 0:
+                        bad.append("leaves the flag set")
+                elif ret is None:
+                    unk.append("a returned value is not decided")
             if not oks:
-                bad.append("no successful return was found")
-            ctx.decide(not bad, rule, "%s:PrintEnd:from-%s" % (rule, "set" if init else "clear"), f.loc,
+                unk.append("no successful return was found")
+            k2 = "%s:PrintEnd:from-%s" % (rule, "set" if init else "clear")
+            if unk and not bad:
+                ctx.unknown(rule, k2, f.loc, "; ".join(sorted(set(unk))[:2]))
+                continue
+            ctx.decide(not bad, rule, k2, f.loc,
                        "returns new-line = %s and clears the flag" % (not init),
                        "%s with the flag %s: %s - %s" % (
                            f.name, "set" if init else "clear", "; ".join(sorted(set(bad))),
                            "a PRINT that ends in a separator must not end the line, any other must, and the next "
                            "statement starts with the flag clear"))
-    ctx.require(rule, 5)
+    ctx.require(rule, 3, max_unknown=2)
 
 
 # ------------------------------------------------------------------ R5 / R6
@@ -759,6 +837,18 @@ def r5_column(ctx, rule="C16.R5"):
         calls_adv = any((t.get("res") or mir.callee_of(t)) in adv_ids for _b, t in pbody.calls()) or pr.id in adv_ids
         ctx.decide(calls_ln, rule, "%s:%s:print-ends-line-between-parts" % (rule, ty), pr.loc, "println between parts",
                    "%s::print never calls println: a CR / LF inside a string does not restart the column" % ty)
+        if split:
+            ppv = mir.Prov(pbody)
+            raw = []
+            for _b, t in pbody.calls():
+                if (t.get("res") or mir.callee_of(t)) in adv_ids and len(t["args"]) >= 2:
+                    o = mir.show_origin(ppv.of_operand(t["args"][1]))
+                    if "split" not in o:
+                        raw.append("line %s (%s)" % (t.get("ln"), o[:40]))
+            ctx.decide(not raw, rule, "%s:%s:print-writes-split-parts-only" % (rule, ty), pr.loc,
+                       "every text handed to the advancing routine is a part of the split",
+                       "%s::print hands text to the advancing routine that did not come out of the split at CR / LF - %s: a CR or "
+                       "LF inside it is written as it is and the column does not restart" % (ty, "; ".join(raw)))
         ctx.decide(calls_adv, rule, "%s:%s:print-advances-column" % (rule, ty), pr.loc,
                    "text goes through %s" % sorted(f.name for f, _s in adv),
                    "%s::print writes text without going through a routine that adds to %s" % (ty, col))
@@ -1101,3 +1191,7 @@ def run(ctx):
     r6_per_device(ctx, cols, devices)
     r7_number_frame(ctx)
     r8_state_survives_user_code(ctx)
+    # the format cursor, the format and the device of a PRINT belong to that statement: every field a per-item
+    # operation modifies is written again when the next statement starts or this one ends (shared with C01.R5)
+    from . import c01
+    c01.r5_print_state_is_statement_scoped(ctx, "C16.R9")
